@@ -82,6 +82,7 @@ func propC18(w *World, r *Report, tier string) {
 	r.Expect("seq.fresh-elem", 5)
 	checkSerialiserLoops(w, r, "uePolicyContainer", func(fn *ssa.Function) bool { return fn.Name() == "MarshalBinary" || strings.HasPrefix(fn.Name(), "Encode") })
 	r.Expect("seq.all-items", 5)
+	checkPointerFieldWrites(w, r, "uePolicyContainer")
 	checkFreshDecodeTargets(w, r, "uePolicyContainer", "UePolDeliverySer.UePolDeliverySerDecode")
 	r.Expect("dec.fresh-target", 3)
 	// PLMN octets of the section-management sublists: same TS 24.008 digit order as every other PLMN encoder
